@@ -4,6 +4,10 @@
 #include <thread>
 #include <vector>
 
+#include <dlfcn.h>
+#include <locale.h>
+#include <stdlib.h>
+
 #include "../rt/sim_api.h"
 #include "c20.h"
 #include "rkcommon/tracing/Tracing.h"
@@ -214,8 +218,30 @@ static void write_one(const C20IPlan *p, const std::string &path)
   }
 }
 
+// the directory the lane's library was loaded from holds the locale compiled at build time
+static void adopt_decimal_comma_locale()
+{
+  Dl_info di;
+  if (!dladdr((void *)&adopt_decimal_comma_locale, &di) || !di.dli_fname) {
+    c20i_locale_result(0);
+    return;
+  }
+  std::string dir(di.dli_fname);
+  size_t slash = dir.rfind('/');
+  dir = (slash == std::string::npos ? std::string(".") : dir.substr(0, slash)) + "/locale";
+  setenv("LOCPATH", dir.c_str(), 1);
+  c20i_locale_result(setlocale(LC_NUMERIC, "xx_XX") != nullptr);
+}
+
 extern "C" void c20img_run()
 {
+  setlocale(LC_ALL, "C");
+  if (c20i_decimal_comma())
+    adopt_decimal_comma_locale();  // what an application does with setlocale(LC_ALL, "") under de_DE, fr_FR, ...
+  struct Restore
+  {
+    ~Restore() { setlocale(LC_ALL, "C"); }
+  } restore;
   int n = c20i_count();
   if (n <= 1) {
     write_one(c20i_plan_n(0), c20_path_n(0));
